@@ -4891,6 +4891,11 @@ class SSHClientConnection(SSHConnection):
                 self._dynamic_remote_listeners[listen_host] = listener
 
             self._remote_listeners[listen_host, listen_port] = listener
+
+            if not self._transport:
+                # The connection was lost while the reply was being handled
+                listener.close()
+
             return listener
         else:
             packet.check_end()
@@ -5086,6 +5091,11 @@ class SSHClientConnection(SSHConnection):
                                                      max_pktsize)
 
             self._remote_listeners[listen_path] = listener
+
+            if not self._transport:
+                # The connection was lost while the reply was being handled
+                listener.close()
+
             return listener
         else:
             self.logger.debug1('Failed to create remote UNIX listener')
